@@ -278,7 +278,7 @@ def make_ecdsa(rng, clsmap):
         sg.meta['crit'] = dict({x: 'may' for x in gen.ECDSA_CHECKS})
       groups[slot] = sigs
     elif c in ('msbA', 'msbB', 'msbC'):
-      groups[slot] = gen.msb_biased_sigs(rng, slot + '-', 'secp256r1', 8, 64)
+      groups[slot] = gen.msb_biased_sigs(rng, slot + '-', 'secp256r1', 10, 64)   # 1.25 x the documented margin: the margin itself is C08's business (catalogue instances)
     elif c in ('tinyissuerA', 'tinyissuerB'):
       # honest nonces, but the issuer's private key is tiny (CheckWeakECPrivateKey, CRITICAL) AND close to the other tiny issuer
       # (CheckECKeySmallDifference, HIGH): the issuer-key entry must carry the higher of the two severities
